@@ -149,7 +149,7 @@ func c12aim(r *gen.R, all *ms.Table, h *qHist) (c12range, bool) {
 }
 
 // c12newerRows: number of rows of u in the newest year present in u (they are read first by the backward scan).
-func c12newerRows(u *ms.Table, n int) int {
+func c12newerRows(u *ms.Table) int {
 	if u.N == 0 {
 		return 0
 	}
@@ -316,7 +316,7 @@ func c12run(c *runner.Ctx) runner.Result {
 				}
 				if trigYear && A.N <= N {
 					// rows of U that live in year files newer than the oldest file the scan needed are returned correctly at the tail
-					k := c12newerRows(U, N)
+					k := c12newerRows(U)
 					if k > A.N {
 						k = A.N
 					}
@@ -345,6 +345,10 @@ func c12run(c *runner.Ctx) runner.Result {
 			for _, N := range []int64{(1<<31-1)/recLen + 1, 1 << 28, 1 << 30, 1<<31 - 1, 1<<32 + 1} {
 				if N < 1<<31-1 && N*recLen <= 1<<31-1 {
 					continue // not beyond the budget for this record length
+				}
+				if b := int32(recLen) * int32(N); b > 64<<20 {
+					res.Count("huge_limit_skipped_large_buffer", 1)
+					continue // wraps to a large positive budget: the backward scan would allocate it; nothing to learn
 				}
 				for _, fromStart := range []bool{true, false} {
 					dir := map[bool]string{true: "first", false: "last"}[fromStart]
@@ -409,6 +413,6 @@ func init() {
 		Batch:        4,
 		BatchTimeout: 20 * time.Minute,
 		Run:          c12run,
-		Need:         []string{"queries_limited", "queries_first", "queries_last", "rows_compared", "limit_cuts_result", "limit_not_binding", "histories_with_big_gap"},
+		Need:         []string{"queries_limited", "queries_first", "queries_last", "rows_compared", "limit_cuts_result", "limit_not_binding", "histories_with_big_gap", "queries_huge_limit"},
 	})
 }
